@@ -35,6 +35,9 @@ def row_options(kind, n, flag):
         return None
     if kind == 'dict':
         return {'center_extrema': 'trough', 'threshold_kwargs': dict(S.T0), 'return_samples': not flag}
+    if kind == 'alias':      # one dict object repeated for every row
+        return [{'center_extrema': 'trough', 'burst_method': 'amp', 'threshold_kwargs': dict(S.TA0),
+                 'burst_kwargs': {'amp_threshes': (.5, 1.)}, 'return_samples': not flag}] * n
     rows = [{'threshold_kwargs': dict(S.T0)},
             {'center_extrema': 'trough', 'threshold_kwargs': dict(S.T1), 'return_samples': not flag},
             {'burst_method': 'amp', 'threshold_kwargs': dict(S.TA0), 'burst_kwargs': {'amp_threshes': (.5, 1.)}},
@@ -49,7 +52,7 @@ def reference(sigs, opts, flag):
     out = []
     for i, sig in enumerate(sigs):
         o = {} if opts is None else (opts if isinstance(opts, dict) else opts[i])
-        o = copy.deepcopy(o)
+        o = copy.deepcopy(o)      # (a deep copy of one row's dict: aliasing between rows is cut here on purpose)
         o.pop('return_samples', None)
         with contextlib.redirect_stdout(io.StringIO()):
             out.append(compute_features(np.array(sig), FS, FR, return_samples=flag, **o))
@@ -65,7 +68,7 @@ def configs(tier):
     q = tier == 'quick'
     out = []
     for n in (1, 2, 3, 4) if q else (1, 2, 3, 4, 5):
-        for kind in ('none', 'dict', 'list'):
+        for kind in ('none', 'dict', 'list', 'alias'):
             for flag in (True, False):
                 for nj in sorted({1, 2, 3, n + 2, -1}, key=lambda v: (v < 0, v)):
                     for prog in (None, 'absent', 'stub'):
@@ -141,7 +144,7 @@ class Schedules(Space):
         else:
             opts = row_options(kind, n, flag)
             ref = reference(sigs, opts, flag)
-            opts_call = copy.deepcopy(opts)
+            opts_call = opts if kind == 'alias' else copy.deepcopy(opts)
         sgn = {'entry': c['entry'], 'executor': c['executor'], 'options': kind}
         extra = {}
         try:
